@@ -571,3 +571,110 @@ def latch_rule(ctx, c, impls, rid):
             if not ok:
                 ctx.violation(rid, key + "|ended-not-latched", "the combinator is declared FusedPull without requiring its upstream %s to be fused, but after the upstream reported Ended a path "
                               "returns without recording it in the combinator's own state: a later pull would poll the ended upstream again and may yield items after Ended" % sorted(unfused), b.loc(e))
+
+
+def retrysafe_rule(ctx, crate, rid, adts):
+    import retrysafe
+    for d, b in sorted(crate.bodies.items()):
+        if b.kind == "Closure" or crate.is_test_path(d):
+            continue
+        fn = crate.fns.get(d)
+        if not fn or not fn.get("impl"):
+            continue
+        imp = crate.impls.get(fn["impl"])
+        if not imp or imp.get("self_adt") not in adts:
+            continue
+        n, finds = retrysafe.analyse(b)
+        if not n:
+            continue
+        key = "%s|%s" % (crate.name, fn_key(crate, b))
+        ctx.inst(rid, key, sites=n, sample={"function": b.def_path, "drain_loops_with_readiness_check": n})
+        seen = set()
+        for w, r, what in finds:
+            if what in seen:
+                continue
+            seen.add(what)
+            ctx.violation(rid, key + "|write-before-ready:" + what, "inside a drain loop the adaptor's own state is modified (%s) before the downstream's poll_ready of the same iteration: when the "
+                          "downstream answers Pending the function returns and the iteration is retried, so the item / cursor step taken here is lost" % what, b.loc(w), {"ready_block": r})
+
+
+def phasereset_rule(ctx, crate, rid, adts):
+    """a phase marker (own-state field compared with a constant to decide whether the send phase must be (re)initialised) is put back to the value
+    that re-enables the phase only where the call can no longer return Pending: under the Done edge of the downstream's answer"""
+    import guards
+    import proto
+    for d, b in sorted(crate.bodies.items()):
+        if b.kind == "Closure" or crate.is_test_path(d):
+            continue
+        fn = crate.fns.get(d)
+        if not fn or not fn.get("impl") or fn["name"] not in ("poll_ready", "poll_finalize", "poll_flush", "poll_close"):
+            continue
+        imp = crate.impls.get(fn["impl"])
+        if not imp or imp.get("self_adt") not in adts:
+            continue
+        org = proto.Origins(b)
+        tested = {}
+        for bb, i, lhs, rv in b.assignments():
+            if rv["k"] == "bin" and rv.get("op") in ("Eq", "Ne") and len(rv["ops"]) == 2:
+                cs = [o.get("c") for o in rv["ops"]]
+                ps = [op_place(o) for o in rv["ops"]]
+                for k in (0, 1):
+                    if cs[k] is not None and ps[1 - k] is not None and isinstance(ps[1 - k], int):
+                        for db, idx, rv2 in b.defs_of(ps[1 - k]):
+                            if idx != "term" and rv2["k"] == "use":
+                                p = op_place(rv2["ops"][0])
+                                if p is not None and not isinstance(p, int):
+                                    root, path = org.origin_place(p)
+                                    if root == 1 and path:
+                                        tested.setdefault(".".join(str(x) for x in path), set()).add(str(cs[k]))
+        if not tested:
+            continue
+        resets = []
+        for bb, i, lhs, rv in b.assignments():
+            if b.is_cleanup(bb) or isinstance(lhs, int) or "*" not in pl_projs(lhs) or rv["k"] != "use":
+                continue
+            cst = rv["ops"][0].get("c")
+            if cst is None:
+                continue
+            root, path = org.origin_place(lhs)
+            f = ".".join(str(x) for x in path)
+            if root == 1 and f in tested and str(cst) in tested[f]:
+                resets.append((bb, f, str(cst)))
+        key = "%s|%s" % (crate.name, fn_key(crate, b))
+        if not resets:
+            continue
+        # Pending-capable exits
+        down_results = set()
+        exits = set()
+        call_exits = set()
+        for bb, t in b.calls():
+            fcall = t.get("f")
+            if fcall and fcall["name"] in ("poll_ready", "poll_finalize", "poll_flush", "poll_close") and isinstance(t.get("dst"), int):
+                if t["dst"] == 0:
+                    exits.add(bb)
+                    call_exits.add(bb)
+                else:
+                    down_results.add(t["dst"])
+            elif fcall and fcall["name"] == "pending" and t.get("dst") == 0 and not b.is_cleanup(bb):
+                exits.add(bb)
+                call_exits.add(bb)
+        for bb, i, lhs, rv in b.assignments():
+            if lhs != 0 or b.is_cleanup(bb):
+                continue
+            if rv["k"] == "agg" and (rv.get("adt") or {}).get("variant") == "Pending":
+                exits.add(bb)
+            elif rv["k"] == "use":
+                p = op_place(rv["ops"][0])
+                if isinstance(p, int) and p in down_results:
+                    exits.add(bb)
+        G = guards.Guards(b, {"is_done", "is_ready"})
+        ctx.inst(rid, key, sites=len(resets), sample={"phase_fields": {k: sorted(v) for k, v in tested.items()}, "resets": resets, "pending_capable_exits": sorted(exits)})
+        for bb, f, cst in resets:
+            g = G.guards_of(bb)
+            if ("is_done", True) in g or ("is_ready", True) in g:
+                continue
+            reach = b.reachable(start=bb)
+            bad = sorted(e for e in exits if e in reach and (e != bb or e in call_exits))
+            if bad:
+                ctx.violation(rid, key + "|reset-before-pending:" + f, "the phase marker `%s` is put back to %s (the value that re-enables the send phase) on a path that can still return Pending: a re-polled "
+                              "call would run the phase again and deliver its items a second time" % (f, cst), b.loc(bb), {"pending_capable_exit_blocks": bad})
